@@ -8,7 +8,8 @@ from core import AnalysisBroken, VERIF
 CHECKS = {
     "C15": [("R-GLOBAL", "r_global", "run_global", ("quick", "thorough"))],
     "C04": [("R-ALLOC.who", "r_global", "run_alloc_who", ("quick", "thorough")),
-            ("R-TMP", "r_tmp", "run", ("quick", "thorough"))],
+            ("R-TMP", "r_tmp", "run", ("quick", "thorough")),
+            ("R-ALIAS.mem", "r_alias", "run_mem", ("quick", "thorough"))],
     "C05": [("R-ALIAS", "r_alias", "run", ("quick", "thorough"))],
     "C06": [("R-TABLES.c06", "r_tables", "run_c06", ("quick", "thorough")),
             ("R-TABIDX.digit", "r_tables", "run_digit_index", ("quick", "thorough"))],
@@ -36,6 +37,7 @@ RULES = {
     "R-TABLES.c16": ("r_tables", "run_c16"),
     "R-TABLES.logic": ("r_tables", "run_logic"),
     "R-ALIAS": ("r_alias", "run"),
+    "R-ALIAS.mem": ("r_alias", "run_mem"),
     "R-TABIDX.digit": ("r_tables", "run_digit_index"),
 }
 
@@ -49,6 +51,12 @@ EXPLANATION = {
            "(R-PURE), every compile-time-constant assertion holds under each shipped tuning table (R-CONSTASSERT), and no "
            "TMP block is used after TMP_FREE or escapes (the alloca / malloc-reentrant / debug temporaries cannot differ). "
            "Kernel ABI and dispatch-contract rules are added as they are built.  Functional equivalence of kernels is not decided.",
+    "C05": "Flow-sensitive abstract interpretation (aliasflow) of every mpz/mpq/mpf function with an output operand under the manual's "
+           "aliasing model, partitioned on pointer-comparison facts: (R-STALE) no limb pointer of an object is used after an event "
+           "that may move or free the block of any object that may be the same variable, without being reloaded; (R-CLOBBER) no "
+           "input is read after an output that may be the same variable was overwritten.  These are the mechanisms the property's "
+           "anchors name (copy before overwrite, store ordering, pointers fetched after reallocation).  Values are not modelled: "
+           "equality of aliased and non-aliased results when both are computed by correct code paths is not decided.",
     "C06": "Exhaustive static check of the constant data radix conversion rests on: all 255 entries of __gmpn_bases recomputed "
            "exactly (digits per limb, big_base, its inverse, log2/log b), the 480-byte digit-value table against the three digit "
            "alphabets of every output function (writer/reader agreement for every base and digit), and a three-valued analysis "
@@ -90,6 +98,13 @@ ASSUMPTIONS = {
     "R-TABLES.c06": ["tables are read from the linked LLVM IR (clang's constant evaluation of the initialisers); definitions recomputed "
                      "with Python integers / 60-digit decimals", "MPN_SIZEINBASE witnesses emulate the macro's IEEE double multiply and "
                      "truncation; two of them were replayed against the real library (findings/sizeinbase)"],
+    "R-ALIAS": ["alias model of the manual: an output may be the same variable as any input of its type, two outputs are distinct, locals alias nothing; "
+                "static helpers inherit the aliasing their call sites in the unit can produce",
+                "public callees handle overlap between their own operands (the same rules applied to them)",
+                "limb-level stores conflict only with whole-object reads (element-wise in-place loops are not ordered by this rule)",
+                "reviewed value-dependent sites are listed one by one in spec/alias_exceptions.tsv"],
+    "R-ALIAS.mem": ["R-EXTENT refutes only when (write end - requested size) normalises to a positive constant in a linear-term domain; "
+                    "data-dependent extents are counted as undecided", "callee write extents for mpn functions from spec table MPN_EXTENTS (manual)"],
     "R-TABIDX.digit": ["an index is a byte if it is an (unsigned char) conversion, a load through unsigned char *, a getc-family result, "
                        "or a variable all of whose assignments are such; EOF handling of getc results is not decided"],
     "R-TABLES.c16": ["tables are read from the linked LLVM IR; limit macros from `clang -E -dM` of each unit that defines them"],
